@@ -13,7 +13,8 @@
 EXTENDS Integers, Sequences, FiniteSets, TLC, Json, Geometry
 CONSTANTS Depth,      \* length of update histories
           NPos,       \* positions 0..NPos-1
-          MaxNets     \* nets per netlist
+          MaxNets,    \* nets per netlist
+          NInit       \* number of initial position vectors used
 
 P(c, dx, dy) == [c |-> c, dx |-> dx, dy |-> dy]
 NetShapes == <<
@@ -67,7 +68,7 @@ SpanOf(m) == IF m = <<>> THEN 0 ELSE m[2] - m[1]
 HasCell(net, c) == \E k \in 1..Len(net.pins) : net.pins[k].c = c
 
 Init == /\ nl \in { S \in SUBSET (1..Len(NetShapes)) : Cardinality(S) <= MaxNets }
-        /\ sub \in 1..Len(Subsets) /\ ov \in 1..Len(OrientVecs) /\ ip \in 1..Len(InitPos)
+        /\ sub \in 1..Len(Subsets) /\ ov \in 1..Len(OrientVecs) /\ ip \in 1..NInit
         /\ axis \in {"x", "y"}
         /\ pos = InitPos[ip] /\ hist = <<>>
         /\ mm = AllMM(nl, ov, axis, pos)
